@@ -12,7 +12,8 @@ RULE = ("case = stylesheet tree as JSON; the builder writes the text and records
         "EVERY position 0..len. Oracle (ground truth): match = innermost declaration (name → `;`+1, body = value) or rule (selector → `}`+1, body between the braces) "
         "strictly containing pos; balanced_outward = value, declaration, then per enclosing rule its white-space-trimmed content range and full range (adjacent duplicates "
         "and empty ranges collapsed) wherever in the file pos is; balanced_inward = construct at pos followed by its first-child chain. Positions between a value's end and "
-        "its `;` and positions equal to a recorded offset are two-valued for match/inward (both readings of 'contains', exact ranges either way). "
+        "its `;` and positions equal to a recorded offset are two-valued for match/inward (both readings of 'contains', exact ranges either way); for "
+        "balanced_outward only the position on the `;` itself is. "
         "Non-trivial: position in the 2nd or later top-level rule, at nesting ≥ 2, or in a declaration whose value has a string/parenthesis with delimiters.")
 ASSUME = ["declarations are `;`-terminated (the quantifier); values contain `:` `;` `{` `}` only inside strings or comments; selectors contain them only inside strings, comments, parentheses or as pseudo-class colons",
           "white space for trimming = blank, tab, LF, CR, NBSP (the library's is_space)"]
@@ -103,7 +104,9 @@ def check_doc(case, rec):
                     push(acc, GC.trimmed(src, x.open + 1, x.close))
                     push(acc, (x.start, x.end))
         got = [tuple(r) for r in out]
-        if got != exp and not (got == alt and enc and enc[0].kind == 'decl' and pos >= enc[0].value[1]):
+        # a declaration spans from its name to its `;`: positions in the gap between the value end and the `;` are inside it and it must be
+        # listed; only the position ON the `;` itself is two-valued (strict interval reading vs the library's caret reading)
+        if got != exp and not (got == alt and enc and enc[0].kind == 'decl' and pos >= enc[0].semi):
             kind = 'outward:empty-after-first-top-level-rule' if (enc and not got) else 'outward:wrong-list'
             rec.fail(kind, 'pos %d in %r\n expected %r\n got      %r' % (pos, src, exp, got))
             return
